@@ -17,19 +17,21 @@ import (
 func init() { monitors["C16"] = monC16 }
 
 type loggerCase struct {
-	ID         int    `json:"id"`
-	Size       int    `json:"size"`
-	Content    string `json:"content"` // random | zeros | text
-	Seed       uint64 `json:"seed"`
-	Stdin      string `json:"stdin_mode"` // file | pipe | pipe-close-at-once
-	Chunk      int    `json:"chunk"`
-	GapUs      int    `json:"gap_us"`
-	Hook       string `json:"hook_profile"`
-	Procs      int    `json:"gomaxprocs"`
-	LogEvents  bool   `json:"log_events"`
-	NoEventDir bool   `json:"no_event_log_directory,omitempty"`
-	NoOldDir   bool   `json:"no_directory_for_old_logs,omitempty"`
-	TZ         string `json:"tz,omitempty"` // time zone of the process
+	ID      int    `json:"id"`
+	Size    int    `json:"size"`
+	Content string `json:"content"` // random | zeros | text
+	Seed    uint64 `json:"seed"`
+	Stdin   string `json:"stdin_mode"` // file | pipe | pipe-close-at-once
+	// sizes of the writes to the program's standard input, in turn (overrides Chunk)
+	ChunkPattern []int  `json:"chunk_pattern,omitempty"`
+	Chunk        int    `json:"chunk"`
+	GapUs        int    `json:"gap_us"`
+	Hook         string `json:"hook_profile"`
+	Procs        int    `json:"gomaxprocs"`
+	LogEvents    bool   `json:"log_events"`
+	NoEventDir   bool   `json:"no_event_log_directory,omitempty"`
+	NoOldDir     bool   `json:"no_directory_for_old_logs,omitempty"`
+	TZ           string `json:"tz,omitempty"` // time zone of the process
 	// the local time of day at which the process starts ("hh:mm:ss"): realised at run time
 	// by a zone file whose offset is the difference from the machine's clock
 	LocalClock string `json:"local_time_of_day_at_start,omitempty"`
@@ -101,6 +103,25 @@ func loggerInput(k loggerCase) []byte {
 			b = append(b, fmt.Sprintf("$GNGLL,5321.68%02d,N,00630.33%02d,W,0927%02d.000,A,A*%02X\n", r.Intn(100), r.Intn(100), n%60, r.Intn(256))...)
 		}
 		return b
+	case "crlf-binary":
+		// binary data in which CR LF, LF, NUL NUL and the like turn up at the places where
+		// the chunk pattern cuts
+		b := r.Bytes(k.Size)
+		for i := 0; i+1 < len(b); i += 1 + int(b[i]%13) {
+			copy(b[i:], [][]byte{{'\r', '\n'}, {'\n', '\n'}, {0, 0}, {'\r', '\r'}}[int(b[i])%4])
+		}
+		if len(k.ChunkPattern) == 5 {
+			// make the two-byte pieces of the pattern CR LF
+			off := 0
+			for n := 0; off < len(b); n++ {
+				sz := k.ChunkPattern[n%5]
+				if sz == 2 && off+2 <= len(b) {
+					b[off], b[off+1] = '\r', '\n'
+				}
+				off += sz
+			}
+		}
+		return b
 	case "text":
 		b := make([]byte, k.Size)
 		for i := range b {
@@ -170,7 +191,7 @@ func execC16(c *child.Ctx, k loggerCase, cj []byte) {
 		extraEnv = append(extraEnv, "TZ="+k.TZ)
 	}
 	ak := appCase{ID: k.ID, StdinMode: "pipe", StdoutMode: "fast", Chunk: k.Chunk, ReaderUs: k.GapUs, Procs: k.Procs, HookProfile: k.Hook,
-		SilenceAfterChunks: k.SilenceAfterChunks, SilenceMs: k.SilenceMs, StdinNonblock: k.StdinNonblock, FirstChunk: k.FirstChunk}
+		SilenceAfterChunks: k.SilenceAfterChunks, SilenceMs: k.SilenceMs, StdinNonblock: k.StdinNonblock, FirstChunk: k.FirstChunk, ChunkPattern: k.ChunkPattern}
 	if k.Stdin == "file" || k.Stdin == "devnull" || k.Stdin == "pty" {
 		ak.StdinMode = k.Stdin
 	}
@@ -347,6 +368,17 @@ func monC16(c *child.Ctx, replay json.RawMessage) {
 			// a stream that begins with a frame, its first few bytes arriving on their own
 			k.Content, k.Stdin, k.FirstChunk = "frames", "pipe", 1+i/5%8
 			c.Count("runs_with_a_tiny_first_read", 1)
+		}
+		if i%17 == 11 && k.SilenceMs == 0 {
+			// text whose line ends arrive in reads of their own (a feeder that writes the
+			// sentence and the CR LF separately; a keep-alive of bare line ends), and binary
+			// data cut so that two-byte and one-byte pieces arrive alone
+			k.Stdin, k.Content, k.Size, k.Hook, k.FirstChunk = "pipe", "text", 26*r.Range(3, 40), "", 0
+			k.ChunkPattern, k.GapUs = []int{24, 2}, -2500
+			if r.Chance(1, 3) {
+				k.Content, k.ChunkPattern = "crlf-binary", []int{r.Range(5, 60), 2, 1, r.Range(1, 9), 2}
+			}
+			c.Count("runs_with_line_ends_arriving_on_their_own", 1)
 		}
 		if i%13 == 3 || i%13 == 8 {
 			// the standard input is a character device: /dev/null (an empty input), or a
